@@ -1,5 +1,6 @@
 import Driver.Util
 import MpcVerif.Model.Iknp
+import MpcVerif.Model.IknpBuf
 import MpcVerif.Model.Cot
 import MpcVerif.Model.CoBytes
 
@@ -136,6 +137,137 @@ def handleIknp (stape rtape batches : String) : String :=
       | some outs => ";".intercalate outs
   | _, _, _ => "bad-op"
 
+/-! ### IKNP histories with named output buffers (`Iknp.runCallB`) -/
+
+/-- What the party's long-lived array is overwritten with before a call. -/
+inductive Pre where
+  | keep
+  | fill (b : Nat)
+  | rand (key : ByteArray)
+
+structure BufSpec where
+  fresh : Bool := true
+  pre : Pre := .keep
+  off : Nat := 0
+  extra : Nat := 0
+
+/-- `-` | `<pre>@<off>+<extra>` with `<pre>` = `k` | `f<2 hex>` | `r<32 hex>`. -/
+def parseBuf (s : String) : Option BufSpec :=
+  if s == "-" then some {} else
+  match s.splitOn "@" with
+  | [pre, rest] =>
+    match rest.splitOn "+" with
+    | [off, extra] => do
+      let off ← off.toNat?
+      let extra ← extra.toNat?
+      let tag ← pre.toList.head?
+      let arg := (pre.drop 1).toString
+      let pre ← (if tag == 'k' then (if arg == "" then some Pre.keep else none)
+        else if tag == 'f' then (do
+          let b ← Aes.bytesOfHex arg
+          if b.size ≠ 1 then none else some (Pre.fill (b[0]!).toNat))
+        else if tag == 'r' then (do
+          let b ← Aes.bytesOfHex arg
+          if b.size ≠ 16 then none else some (Pre.rand b))
+        else none)
+      some { fresh := false, pre := pre, off := off, extra := extra }
+    | _ => none
+  | _ => none
+
+/-- The bytes an array of `nbytes` bytes is overwritten with. -/
+def preBytes (p : Pre) (nbytes : Nat) : Option ByteArray :=
+  match p with
+  | .keep => none
+  | .fill b => some (ByteArray.mk (Array.replicate nbytes (UInt8.ofNat b)))
+  | .rand key =>
+    match Aes.Cipher.new key with
+    | none => some (ByteArray.mk (Array.replicate nbytes 0))
+    | some c => some (Aes.ctrStream c 0#128 nbytes)
+
+def word64 (b : ByteArray) (ofs : Nat) : BitVec 64 := Id.run do
+  let mut n := 0
+  for t in [0:8] do
+    n := (n <<< 8) ||| (b[ofs + t]!).toNat
+  return BitVec.ofNat 64 n
+
+def BufSpec.srcL (b : BufSpec) (al : Nat) : BufSrc Label :=
+  if b.fresh then .fresh else
+  .arena ((preBytes b.pre (16 * al)).map fun bs => Iknp.mk al fun i => label128 bs (16 * i)) b.off b.extra
+
+def BufSpec.srcW (b : BufSpec) (aw : Nat) : BufSrc (BitVec 64) :=
+  if b.fresh then .fresh else
+  .arena ((preBytes b.pre (8 * aw)).map fun bs => Iknp.mk aw fun i => word64 bs (8 * i)) b.off b.extra
+
+inductive BatchB where
+  | labels (mal : Bool) (n : Nat) (b : Array Bool) (buf : BufSpec)
+  | bits (n : Nat) (ch : Words) (rbuf sbuf : BufSpec)
+
+def BatchB.cols : BatchB → Nat
+  | .labels mal n _ _ => colBytes n + (if mal then 32 else 0)
+  | .bits n _ _ _ => colBytes n
+
+def parseBatchB (s : String) : Option BatchB := do
+  let kind ← s.toList.head?
+  match ((s.drop 1).toString.splitOn ":") with
+  | [n, payload, buf] =>
+    let n ← n.toNat?
+    if kind == 'L' || kind == 'M' then
+      let b := (parseBits payload).toArray
+      if b.size ≠ n then none else some (.labels (kind == 'M') n b (← parseBuf buf))
+    else none
+  | [n, payload, rbuf, sbuf] =>
+    let n ← n.toNat?
+    if kind == 'B' then some (.bits n (← parseWords payload) (← parseBuf rbuf) (← parseBuf sbuf)) else none
+  | _ => none
+
+structure StB where
+  rs : RecvSt
+  ss : SendSt
+  rpos : Nat
+  ar : Arena
+
+/-- One call of a history (`Iknp.runCallB` with `Store.assign`, the function
+`C06_iknp_history_buffers` is about). -/
+def runBatchB (R0 R1 SS : Nat → Nat → Byte) (delta : Label) (rtape : ByteArray) (al aw : Nat) (st : StB) :
+    BatchB → Option (StB × String)
+  | .labels mal _ b buf =>
+    if mal && rtape.size < st.rpos + 48 then none else
+    let b0 := if mal then label128 rtape st.rpos else 0#128
+    let b1 := if mal then label128 rtape (st.rpos + 16) else 0#128
+    match runCallB Store.assign R0 R1 SS delta st.rs st.ss st.ar (.labels mal b b0 b1 (buf.srcL al)) with
+    | some (rs', ss', ar', o, u) =>
+      some ({ rs := rs', ss := ss', rpos := if mal then st.rpos + 48 else st.rpos, ar := ar' },
+        s!"{if mal then "M" else "L"}:u={chunksHex u}/s={labelsHex o.out.sentL}/r={labelsHex o.out.rcvdL}")
+    | none => none
+  | .bits n ch rbuf sbuf =>
+    match runCallB Store.assign R0 R1 SS delta st.rs st.ss st.ar (.bits n ch (rbuf.srcW aw) (sbuf.srcW aw)) with
+    | some (rs', ss', ar', o, u) =>
+      some ({ st with rs := rs', ss := ss', ar := ar' },
+        s!"B:u={chunksHex u}/s={wordsHex o.out.sentW}/r={wordsHex o.out.rcvdW}")
+    | none => none
+
+def runBatchesB (R0 R1 SS : Nat → Nat → Byte) (delta : Label) (rtape : ByteArray) (al aw : Nat) :
+    StB → List BatchB → Option (List String)
+  | _, [] => some []
+  | st, b :: bs =>
+    match runBatchB R0 R1 SS delta rtape al aw st b with
+    | none => none
+    | some (st', s) => (runBatchesB R0 R1 SS delta rtape al aw st' bs).map (s :: ·)
+
+/-- `iknpb <base> <transport> <stape> <rtape> <arenaLabels> <arenaWords> <batches>` -/
+def handleIknpB (stape rtape al aw batches : String) : String :=
+  match Aes.bytesOfHex stape, Aes.bytesOfHex rtape, al.toNat?, aw.toNat?, (batches.splitOn ";").mapM parseBatchB with
+  | some stape, some rtape, some al, some aw, some bs =>
+    let total := (bs.map BatchB.cols).foldl (· + ·) 0
+    match mkPair stape rtape total with
+    | none => "error"
+    | some p =>
+      match runBatchesB p.R0 p.R1 p.SS p.delta rtape al aw
+          ⟨RecvSt.init, SendSt.init, 2 * K * 16, ⟨zerosL al, zerosW aw, zerosW aw⟩⟩ bs with
+      | none => "error"
+      | some outs => ";".intercalate outs
+  | _, _, _, _, _ => "bad-op"
+
 /-! ### COT / ROT -/
 
 open Mpc.Cot in
@@ -226,6 +358,96 @@ def handleCot (kind mal stape rtape batches : String) : String :=
       | some outs => ";".intercalate outs
   | _, _, _ => "bad-op"
 
+/-! ### COT / ROT histories with named result buffers -/
+
+structure CBatchB where
+  flags : Array Bool
+  wires : Array Cot.Wire
+  buf : BufSpec
+
+def parseCBatchB (s : String) : Option CBatchB :=
+  match s.splitOn ":" with
+  | [f, w, buf] => do
+    let ls ← parseLabels w
+    let flags := (parseBits f).toArray
+    some { flags := flags, wires := mk flags.size fun i => (Cot.lget ls (2 * i), Cot.lget ls (2 * i + 1)),
+           buf := (← parseBuf buf) }
+  | _ => none
+
+structure CStB where
+  st : CSt
+  arena : Array Label
+
+/-- One COT/ROT batch whose `Receive(flags, result)` gets the named slice: the
+IKNP phase writes it (`Iknp.receiveAt` / `receiveMalAt`), the MITCCRH phase
+reads it and overwrites it with the outputs. -/
+def runCBatchB (rot mal : Bool) (p : Pair) (stape rtape : ByteArray) (al : Nat) (s : CStB) (b : CBatchB) :
+    Option (CStB × String) :=
+  let st := s.st
+  let n := b.flags.size
+  match (b.buf.srcL al).resolve 0#128 s.arena n with
+  | none => none
+  | some (a, off, len) =>
+  let win := window 0#128 a off len
+  let iknp : Option (RecvSt × SendSt × List Label × Array Label × List Bytes × Nat) :=
+    if mal then
+      if rtape.size < st.rpos + 48 then none else
+      match receiveMalAt Store.assign p.R0 p.R1 st.rs b.flags (label128 rtape st.rpos) (label128 rtape (st.rpos + 16)) win with
+      | none => none
+      | some r =>
+        match sendMal p.SS p.delta st.ss n r.2.2 with
+        | some (ss', sent, []) => some (r.1, ss', sent, r.2.1, r.2.2, st.rpos + 48)
+        | _ => none
+    else
+      match receiveAt Store.assign p.R0 p.R1 st.rs b.flags win with
+      | none => none
+      | some r =>
+        match send p.SS p.delta st.ss n r.2.2 with
+        | some (ss', sent, []) => some (r.1, ss', sent, r.2.1, r.2.2, st.rpos)
+        | _ => none
+  match iknp with
+  | none => none
+  | some (rs', ss', data, rcvd, u, rpos') =>
+    if stape.size < st.spos + 16 then none else
+    let seed := label128 stape st.spos
+    let st' : CSt := { rs := rs', ss := ss', rpos := rpos', spos := st.spos + 16 }
+    let fin (out : Array Label) : CStB := { st := st', arena := (b.buf.srcL al).commit 0#128 s.arena a off out }
+    if rot then
+      match Cot.rotSend aesPi p.delta seed data.toArray b.wires, Cot.rotRecv aesPi seed b.flags rcvd with
+      | some w, some out =>
+        some (fin out, s!"u={chunksHex u}/c={hex128 seed}/w={wiresHex w}/r={labelsHex out.toList}")
+      | _, _ => none
+    else
+      match Cot.cotSend aesPi p.delta seed data.toArray b.wires with
+      | none => none
+      | some cts =>
+        match Cot.cotRecv aesPi seed b.flags rcvd cts with
+        | none => none
+        | some out => some (fin out, s!"u={chunksHex u}/c={hex128 seed}{String.join (cts.map hex128)}/w=-/r={labelsHex out.toList}")
+
+def runCBatchesB (rot mal : Bool) (p : Pair) (stape rtape : ByteArray) (al : Nat) :
+    CStB → List CBatchB → Option (List String)
+  | _, [] => some []
+  | st, b :: bs =>
+    match runCBatchB rot mal p stape rtape al st b with
+    | none => none
+    | some (st', s) => (runCBatchesB rot mal p stape rtape al st' bs).map (s :: ·)
+
+/-- `cotb <c|r> <mal> <base> <transport> <stape> <rtape> <arenaLabels> <batches>` -/
+def handleCotB (kind mal stape rtape al batches : String) : String :=
+  match Aes.bytesOfHex stape, Aes.bytesOfHex rtape, al.toNat?, (batches.splitOn ";").mapM parseCBatchB with
+  | some stape, some rtape, some al, some bs =>
+    let mal := mal == "1"
+    let total := (bs.map fun b => colBytes b.flags.size + (if mal then 32 else 0)).foldl (· + ·) 0
+    match mkPair stape rtape total with
+    | none => "error"
+    | some p =>
+      match runCBatchesB (kind == "r") mal p stape rtape al
+          ⟨⟨RecvSt.init, SendSt.init, 2 * K * 16, 16⟩, zerosL al⟩ bs with
+      | none => "error"
+      | some outs => ";".intercalate outs
+  | _, _, _, _ => "bad-op"
+
 /-- `mitccrh <seed> <batchSize> <k.h.labels;...>` -/
 def handleMitccrh (seed bsz calls : String) : String :=
   match parseLabels seed, bsz.toNat? with
@@ -262,7 +484,9 @@ def handleCoBytes (stape rtape batches : String) : String :=
 def handle (args : List String) : String :=
   match args with
   | ["iknp", _base, _transport, stape, rtape, batches] => handleIknp stape rtape batches
+  | ["iknpb", _base, _transport, stape, rtape, al, aw, batches] => handleIknpB stape rtape al aw batches
   | ["cot", kind, mal, _base, _transport, stape, rtape, batches] => handleCot kind mal stape rtape batches
+  | ["cotb", kind, mal, _base, _transport, stape, rtape, al, batches] => handleCotB kind mal stape rtape al batches
   | ["mitccrh", seed, bsz, calls] => handleMitccrh seed bsz calls
   | ["cobytes", stape, rtape, batches] => handleCoBytes stape rtape batches
   | _ => "bad-op"
